@@ -33,6 +33,10 @@ def run(ctx):
     w = W.World(fx, CRATES)
     ctx.rule("C17.sites", "every potential panic/truncation/bounds site of the 7 crates is discharged by a verified rule or is a reviewed site (exact key + reason)")
     PC.site_rule(ctx, w, CRATES, "C17.sites", floor=600, report_stale=True)
+    # the reviewed accessor sites of category INV-ID (`ServerName::port().unwrap()`, `&s[..colon_idx]`, ...) are panic-free only as long as
+    # the validators guarantee the shape the accessors assume: the rules that establish that shape are part of this property
+    from . import C10
+    C10.invariant_rules(ctx, w)
 
     if ctx.tier == "thorough":
         # build configuration B: the API crates with client+server features (generated request/response conversions, the multipart
